@@ -591,7 +591,11 @@ func (g *gen) creader(p *Plan) {
 		p.Inputs = append(p.Inputs, g.input(n2))
 		c2 := CScript{Opts: o2, In: 1, Frag: g.fragFor(n2), EOFWithData: g.r.Chance(1, 3)}
 		for i, k := 0, g.r.Range(1, 3); i < k; i++ {
-			c2.Sizes = append(c2.Sizes, g.r.PickInt(1, 7, 100, 4096, 65536, n2+1000, g.r.Range(1, 70000)))
+			sz := g.r.PickInt(1, 7, 100, 4096, 65536, n2+1000, g.r.Range(1, 70000))
+			if m := n2 / 4000; sz < m {
+				sz = m // keeps the number of Read calls bounded
+			}
+			c2.Sizes = append(c2.Sizes, sz)
 		}
 		c.Next = &c2
 	}
